@@ -84,6 +84,23 @@ CHECKS = {
         'model assumptions listed in the evidence (delete_function clears '
         'exclusivity; merge semantics of del through a multi-context)',
         'DESIGN.md section 2, C17'),
+    'C05': (
+        'Hypothesis-generated overload families and calls (text and API '
+        'paths) against an order-free reference implementation of the '
+        'written resolution rules; probe log for argument evaluation',
+        'Generated-input search over (family of 1-6 overloads with hidden/'
+        'default/lazy/keyword-only/*args/**kwargs parameters and lattice '
+        'types, 1-4 layers, exclusivity; call derived from a definition and '
+        'perturbed). Oracle: models/resolution.py predicts the payload that '
+        'runs with the exact arguments it receives, or the exception class, '
+        'and the tick log of eager/lazy argument evaluation. Where the '
+        'property does not fix when an already-known value is type-checked '
+        'the model is evaluated under all 16 stage combinations (counted). '
+        'Sampled.',
+        'definitions are built directly as FunctionDefinition/'
+        'ParameterDefinition objects (the decorator layer is exercised by '
+        'C12); Super/Delegate/YaqlInterface hidden types only as "occupies '
+        'no caller position"', 'DESIGN.md section 2, C05'),
     'C06': (
         'metamorphic: Hypothesis-generated overload families evaluated under '
         'all permutations of enumeration and registration order (and across '
